@@ -87,3 +87,41 @@ func VerifLinkTextToNumber(text string) (int, bool) {
 	n, err := NewPageNumberFinder(nil, nil, nil).linkTextToNumber(text)
 	return n, err == nil
 }
+
+type verifContextLogger struct {
+	logutil.Logger
+	lines [][]interface{}
+}
+
+func (l *verifContextLogger) IsLogPagination() bool { return true }
+func (l *verifContextLogger) PrintPaginationInfo(args ...interface{}) {
+	l.lines = append(l.lines, args)
+}
+
+// VerifPrevNextContext: the three strings PrevNextFinder.FindOutlink derives from the page URL
+// before it looks at any anchor (current URL, folder URL, allowed prefix), as it logs them.
+func VerifPrevNextContext(pageURL *nurl.URL) (current, folder, prefix string, ok bool) {
+	lg := &verifContextLogger{}
+	NewPrevNextFinder(lg).FindOutlink(&html.Node{Type: html.ElementNode, Data: "div"}, pageURL, true)
+	for _, args := range lg.lines {
+		if len(args) != 2 {
+			continue
+		}
+		k, _ := args[0].(string)
+		v, _ := args[1].(string)
+		switch k {
+		case "Current URL:":
+			current, ok = v, true
+		case "Folder URL:":
+			folder = v
+		case "Allowed prefix:":
+			prefix = v
+		}
+	}
+	return
+}
+
+// VerifPageDiff is PrevNextFinder.getPageDiff.
+func VerifPageDiff(pageURL, linkHref string, skip int) (int, bool) {
+	return NewPrevNextFinder(nil).getPageDiff(pageURL, linkHref, skip)
+}
